@@ -339,8 +339,77 @@ ALWAYS = {"parts-aligned", "disjoint-file", "disjoint-mem", "well-bracketed", "l
 DEFECT_REGION = {"tls-start-aligned": "tls:segment-start-misaligned", "load-offsets": "layout:nobits-not-last-in-load"}
 
 
+def many_sections_link(ctx, n, rel):
+    """Link an object with n one-byte custom sections; returns (path, [(key, what)]) or (None, reason)."""
+    d = os.path.join(ctx.scratch, "manysec")
+    os.makedirs(d, exist_ok=True)
+    src = ".globl _start\n.text\n_start:\n  mov $60,%eax\n  xor %edi,%edi\n  syscall\n" + "".join(
+        f'.section sec{i:05d},"a",@progbits\n.byte 1\n' for i in range(n))
+    obj = lu.asm_obj(d, f"many{n}", src)
+    out = os.path.join(d, f"many{n}{'.r' if rel else ''}.out")
+    rc, o, e = lu.run([runner.WILD, obj, "-o", out, "--no-gc-sections"] + (["-r"] if rel else []))
+    os.unlink(obj)
+    if rc != 0:
+        return None, e.strip().split("\n")[-1][:200]
+    bad = ck.check_file(out, 1 if rel else 2)
+    el = Elf(out)
+    idx = el.e_shstrndx if el.e_shstrndx != 0xFFFF else el.sections[0].link
+    if 0 < idx < len(el.sections) and el.sections[idx].name != ".shstrtab":
+        bad.append(("shstrndx", f"section {idx} named by e_shstrndx/sh_link is {el.sections[idx].name!r}, not .shstrtab"))
+    if el.e_shstrndx != 0xFFFF and el.sections and el.sections[0].link != 0:
+        bad.append(("sh0", f"section header 0 has sh_link={el.sections[0].link} although e_shstrndx={el.e_shstrndx} is not SHN_XINDEX"))
+    if el.e_shnum != 0 and el.sections and el.sections[0].size != 0:
+        bad.append(("sh0", f"section header 0 has sh_size={el.sections[0].size} although e_shnum={el.e_shnum}"))
+    if el.e_shnum >= 0xFF00:
+        bad.append(("shnum", f"e_shnum={el.e_shnum} is a reserved value"))
+    named = sum(1 for x in el.sections if x.name.startswith("sec") and len(x.name) == 8)
+    if named != n:
+        bad.append(("shnum", f"{named} of the {n} custom output sections are reachable through the section header table"))
+    if not rel:
+        rr, _, _ = lu.run([out])
+        if rr != 0:
+            bad.append(("run", f"the program with {n} sections exits with {rr}"))
+    return (out, len(el.sections), idx), bad
+
+
+def section_count_boundary(ctx):
+    """Outputs whose section count / .shstrtab index cross SHN_LORESERVE (0xff00): e_shnum = 0 + sh_size of header 0,
+    e_shstrndx = SHN_XINDEX + sh_link of header 0 must switch over at exactly that value and agree with each other."""
+    for rel in ((False,) if ctx.quick else (False, True)):
+        n0 = 65262
+        info, bad = many_sections_link(ctx, n0, rel)
+        if info is None:
+            ctx.count("section-count-boundary", "rejected")
+            ctx.broken.append(f"wild rejects a link with {n0} sections: {bad}")
+            return
+        extra = info[1] - n0          # sections wild adds
+        strdelta = info[2] - n0       # index of .shstrtab minus n
+        targets = sorted({0xFF00 - extra - 1, 0xFF00 - extra, 0xFF00 - strdelta - 1, 0xFF00 - strdelta, 0xFF00 - strdelta + 1})
+        if not ctx.quick:
+            targets = list(range(min(targets) - 2, max(targets) + 3))
+        for n in [n0] + targets:
+            if n != n0:
+                info, bad = many_sections_link(ctx, n, rel)
+            ctx.note_case(("manysec", n, rel))
+            ctx.cov["evaluations"] += 1
+            if info is None:
+                ctx.count("section-count-boundary", "rejected")
+                continue
+            ctx.count("section-count-boundary", f"shnum=0x{info[1]:x} shstrndx=0x{info[2]:x}")
+            for k, m in bad:
+                key = viol_key(k)
+                if key.startswith("elf:"):
+                    keep = os.path.join(ctx.replay_dir(), f"c04-manysec-{n}{'-r' if rel else ''}.out")
+                    shutil.copy(info[0], keep)
+                ctx.cov["impl_oracle_failures"] += 1
+                ctx.violation(key, f"{'-r' if rel else 'static'} link of {n} one-byte sections: {m}",
+                              {"sections": n, "relocatable": rel, "violated": k, "how": "as: n x `.section secNNNNN,\"a\"; .byte 1` + _start; wild obj -o out --no-gc-sections"})
+            os.unlink(info[0])
+
+
 def run(ctx):
     bindir = g.setup_driver_dir(ctx.scratch, runner.WILD)
+    section_count_boundary(ctx)
     n = 60 if ctx.quick else 900
     reqs, impl, infos, accepted = run_links(ctx, n, bindir)
     # defect probes
